@@ -23,20 +23,49 @@
       the Rust code (break_to_label restores the frames it pops).
 
    Statements that matter to defers are kept, everything else is `SPrint`.
-   A deferred expression is a single observable event (it prints one
-   character). *)
+   A deferred expression is either atomic (it prints one character) or a
+   jump-free block of prints and nested defers (codegen test
+   defers_within_defers).  ABSTRACTION: such a block is represented by the
+   sequence of characters it prints, [flat]; the code generator's treatment of
+   the nested block itself (frame push, statements, nested defers at its end)
+   is not re-derived for it -- [flat] is shared by model and specification and
+   tied to capy only by the end-to-end stream. *)
 From Capy Require Import Common.Util.
 
 Definition name := N.
 
 (* ------------------------------------------------------------------ source *)
+(* Which branch of the error path of Expr::Propagate is generated (decided by the
+   types: hir_ty gives the type of the block propagated to and of the operand):
+     TryZeroSized  `referenced_block_ty.is_zero_sized()` (fn -> nil, fn -> ?void whose
+                   body is always nil, zero-sized error type): break_to_label(None, ..)
+     TryOptional   optional operand, sized optional target: create_nil_value,
+                   break_to_label(Some(nil_value), ..)
+     TryError      error-union operand: unwrap the error, cast it into the target type,
+                   break_to_label(casted, ..)
+   The values are not modelled; what matters here is that each branch leaves the
+   blocks through break_to_label. *)
+Inductive try_kind : Type := TryZeroSized | TryOptional | TryError.
+
+(* a deferred expression *)
+Inductive dexpr : Type :=
+| DAtom (c : N)                                   (* putchar(c) *)
+| DBlock (prints : list N) (defers : list dexpr). (* { putchar.. ; defer ..; } (prints and defers may interleave) *)
+
+(* what it prints when it runs: its prints, then its own defers, last first *)
+Fixpoint flat (d : dexpr) : list N :=
+  match d with
+  | DAtom c => [c]
+  | DBlock ps ds => ps ++ fold_right (fun x acc => acc ++ flat x) [] ds
+  end.
+
 Inductive stmt : Type :=
 | SPrint (c : N)                                  (* an ordinary side effect *)
-| SDefer (c : N)                                  (* defer putchar(c) *)
+| SDefer (d : dexpr)                              (* defer <expr>; *)
 | SBreak (l : option name)                        (* break; / break `l; *)
 | SContinue (l : option name)                     (* continue; / continue `l; *)
 | SReturn                                         (* return v; *)
-| STry                                            (* e.try; -- oracle decides whether it propagates *)
+| STry (k : try_kind)                             (* e.try; -- oracle decides whether it propagates *)
 | SBlock (l : option name) (body : list stmt)     (* { .. } / `l: { .. } as a statement *)
 | SLoop (l : option name) (cond : bool) (body : list stmt)  (* while c { .. } (cond=true) / loop { .. } *)
 | SIf (thn els : list stmt).                      (* if c { .. } else { .. }  (no else = empty else) *)
@@ -44,10 +73,10 @@ Inductive stmt : Type :=
 (* --------------------------------------------------------------------- HIR *)
 Inductive hstmt : Type :=
 | HPrint (c : N)
-| HDefer (c : N)
+| HDefer (cs : list N)                            (* Stmt::Defer; cs = what the expression prints *)
 | HBreak (l : option N)                           (* Stmt::Break { label } (also `return`) *)
 | HContinue (l : option N)                        (* Stmt::Continue { label } *)
-| HTry (l : option N)                             (* Expr::Propagate { label } *)
+| HTry (k : try_kind) (l : option N)              (* Expr::Propagate { label } + the branch its types select *)
 | HBlock (sid : option N) (body : list hstmt)     (* Expr::Block, sid = block_to_scope_id *)
 | HLoop (sid : option N) (cond : bool) (body : list hstmt)  (* Expr::While; body = Expr::Block without scope id *)
 | HIf (thn els : list hstmt).                     (* Expr::If; both bodies are Expr::Blocks without (used) scope id *)
@@ -111,7 +140,7 @@ Definition opt_is (id : N) (l : option N) : bool :=
 Fixpoint uses (id : N) (h : hstmt) : bool :=
   match h with
   | HPrint _ | HDefer _ => false
-  | HBreak l | HContinue l | HTry l => opt_is id l
+  | HBreak l | HContinue l | HTry _ l => opt_is id l
   | HBlock _ b => existsb (uses id) b
   | HLoop _ _ b => existsb (uses id) b
   | HIf a b => existsb (uses id) a || existsb (uses id) b
@@ -127,11 +156,11 @@ Definition scope_id_if_used (id : N) (b : list hstmt) : option N :=
 Fixpoint lower (E : list skind) (s : stmt) {struct s} : hstmt * bool :=
   match s with
   | SPrint c => (HPrint c, false)
-  | SDefer c => (HDefer c, false)
+  | SDefer d => (HDefer (flat d), false)
   | SBreak l => let '(t, e) := resolve_last E l false true in (HBreak t, e)
   | SContinue l => let '(t, e) := resolve_last E l true false in (HContinue t, e)
   | SReturn => (HBreak (resolve_first E), false)
-  | STry => (HTry (resolve_first E), false)
+  | STry k => (HTry k (resolve_first E), false)
   | SBlock l body =>
       let id := N.of_nat (length E) in
       let '(hb, e) := lower_list (lower (KBlock l id :: E)) body in
@@ -163,7 +192,7 @@ Inductive tstmt : Type :=
 | TIf (thn els : list tstmt)
 | TTry (fail : list tstmt).                       (* brif ok, propagate_okay, propagate_error: fail *)
 
-Record frame : Type := mkFrame { fid : option N; fdefers : list N (* in push order *) }.
+Record frame : Type := mkFrame { fid : option N; fdefers : list N (* events of the pushed defers; [rev] of it is what running them prints *) }.
 Definition dstack := list frame.                  (* head = top of `defer_stack` *)
 
 (* `for defer in frame.defers.iter().rev() { compile_expr(defer) }` *)
@@ -190,7 +219,7 @@ Definition compile_list (f : dstack -> hstmt -> result (list tstmt)) (sid : opti
   | [] => Ok ([], pend, false)
   | h :: r =>
       match h with
-      | HDefer c => go (pend ++ [c]) r
+      | HDefer cs => go (pend ++ rev cs) r
       | _ =>
         do c <- f (mkFrame sid pend :: st) h;
         if is_jump_stmt h then Ok (c, pend, true)    (* no_eval = true; break *)
@@ -209,8 +238,13 @@ Fixpoint compile_stmt (st : dstack) (h : hstmt) {struct h} : result (list tstmt)
   | HBreak (Some l) => Ok (unwind_code st l ++ [TJumpExit l])
   | HContinue None => Crash 3                      (* unreachable!() *)
   | HContinue (Some l) => Ok [TJumpHeader l]      (* just jumps to the header *)
-  | HTry None => Crash 4                           (* bodies[label] with label = None *)
-  | HTry (Some l) => Ok [TTry (unwind_code st l ++ [TJumpExit l])]
+  | HTry _ None => Crash 4                         (* bodies[label] with label = None *)
+  | HTry k (Some l) =>
+      match k with
+      | TryZeroSized => Ok [TTry (unwind_code st l ++ [TJumpExit l])]   (* break_to_label(None, label) *)
+      | TryOptional => Ok [TTry (unwind_code st l ++ [TJumpExit l])]    (* break_to_label(Some(nil_value), label) *)
+      | TryError => Ok [TTry (unwind_code st l ++ [TJumpExit l])]       (* break_to_label(casted, label) *)
+      end
   | HBlock sid body =>
       do x <- compile_list (fun s x => compile_stmt s x) sid st [] body;
       let '(code, defers, no_eval) := x in
